@@ -10,6 +10,7 @@ import (
 	"errors"
 	"fmt"
 	"net"
+	"sync"
 	"time"
 
 	"github.com/pion/logging"
@@ -39,6 +40,37 @@ type Server struct {
 	listenerConfigs    []ListenerConfig
 	allocationManagers []*allocation.Manager
 	inboundMTU         int
+
+	// Connections accepted from the listeners, closed by Close.
+	connsLock sync.Mutex
+	conns     map[net.Conn]struct{}
+	closed    bool
+}
+
+// trackConn registers an accepted connection; it reports false (and closes
+// the connection) when the server has already been closed.
+func (s *Server) trackConn(conn net.Conn) bool {
+	s.connsLock.Lock()
+	defer s.connsLock.Unlock()
+
+	if s.closed {
+		_ = conn.Close()
+
+		return false
+	}
+	if s.conns == nil {
+		s.conns = map[net.Conn]struct{}{}
+	}
+	s.conns[conn] = struct{}{}
+
+	return true
+}
+
+func (s *Server) untrackConn(conn net.Conn) {
+	s.connsLock.Lock()
+	defer s.connsLock.Unlock()
+
+	delete(s.conns, conn)
 }
 
 // NewServer creates the Pion TURN server.
@@ -149,6 +181,15 @@ func (s *Server) Close() error {
 		}
 	}
 
+	// Close the connections accepted from the listeners: their read loops end
+	// and delete the allocations made over them.
+	s.connsLock.Lock()
+	s.closed = true
+	for conn := range s.conns {
+		_ = conn.Close()
+	}
+	s.connsLock.Unlock()
+
 	if len(errors) == 0 {
 		return nil
 	}
@@ -170,7 +211,13 @@ func (s *Server) readListener(l net.Listener, am *allocation.Manager) {
 			return
 		}
 
+		if !s.trackConn(conn) {
+			return
+		}
+
 		go func() {
+			defer s.untrackConn(conn)
+
 			var tlsConnectionState *tls.ConnectionState
 
 			// Extract tls connection state if possible
